@@ -97,6 +97,7 @@ type Config struct {
 
 type Interp struct {
 	holdTimers bool // timers fire only through verifAdvance (verifHoldTimers)
+	simulTimers bool // timers with provably equal deadlines fire together (verifSimultaneousTimers)
 	prog *ssa.Program
 	tb   *TB
 	cfg  *Config
